@@ -201,9 +201,11 @@ def apply_pre(state: State, pre: List[Dict[str, Any]], env: simenv.SimEnv) -> No
 def run_session(sess: Dict[str, Any], world_dir: str, emit: Callable[[Dict[str, Any]], None]) -> int:
     """Returns the process exit code to use."""
     import logging
-    if os.environ.get("VERIF_GC_PROBE"):
-        import gc
-        gc.set_threshold(int(os.environ["VERIF_GC_PROBE"]))
+    # the cyclic garbage collector is a scheduler of its own (it decides when the finaliser of an abandoned
+    # file object runs, e.g. the gzip writer of a write that failed): the session owns that schedule.
+    # Automatic collection is off; a full collection runs at every operation boundary.
+    import gc
+    gc.disable()
     try:
         from hta.configs.config import logger as hta_logger
         hta_logger.setLevel(getattr(logging, str(sess.get("env", {}).get("log_level", "CRITICAL")), logging.CRITICAL))
@@ -229,6 +231,7 @@ def run_session(sess: Dict[str, Any], world_dir: str, emit: Callable[[Dict[str, 
         return 3
     base_environ = dict(os.environ)
     for i, o in enumerate(sess["ops"]):
+        gc.collect()
         env.cur_op = i
         env.clock_jump()
         # per-operation environment flags
@@ -275,6 +278,7 @@ def run_session(sess: Dict[str, Any], world_dir: str, emit: Callable[[Dict[str, 
             emit({"ev": "fault_fired", "i": i, "kind": "kill_after_op"})
             emit({"ev": "session_end", "killed": True, "stats": env.stats})
             return simenv.KILL_EXIT
+    gc.collect()
     os.environ.clear()
     os.environ.update(base_environ)
     emit({"ev": "session_end", "killed": False, "stats": env.stats})
